@@ -836,25 +836,31 @@ where
             }
             VecOp::RollbackBefore(d) => {
                 let t = (m.stamp + 1).saturating_sub(*d);
-                // walk down the chain while the current stamp is >= t and a record exists
+                // Walk the records at or below the starting stamp, newest first, while the
+                // current stamp is >= t. The next record must be the one of the current stamp;
+                // any other record there (an older one = a hole in the chain, or a leftover of
+                // a rolled-back commit with a stamp between two live ones) means the chain
+                // cannot be trusted: refused, the vector stays on the committed state reached
+                // so far (C16: "refuses rather than guesses"). No record left: the retention
+                // window ends here and the call stops on the oldest reachable state (C04).
                 let mut progressed = false;
+                let mut bound = m.stamp + 1;
                 loop {
                     if m.stamp < t {
                         break;
                     }
-                    let Some(target) = m.records.get(&m.stamp).cloned() else {
-                        // Pruned by retention: nothing older is left and the call stops
-                        // here. A hole in the chain (older records exist): refused, the
-                        // vector stays on the committed state reached so far.
-                        if m.records.range(..m.stamp).next().is_some() {
-                            if progressed {
-                                m.uncommitted = false;
-                                m.truncated_since_commit = false;
-                            }
-                            return Err("StampMismatch");
-                        }
+                    let Some((&next, _)) = m.records.range(..bound).next_back() else {
                         break;
                     };
+                    if next != m.stamp {
+                        if progressed {
+                            m.uncommitted = false;
+                            m.truncated_since_commit = false;
+                        }
+                        return Err("StampMismatch");
+                    }
+                    let target = m.records[&next].clone();
+                    bound = next;
                     m.restore(&target);
                     progressed = true;
                     if m.chain.len() > 1 {
